@@ -732,13 +732,13 @@ def run(ck):
             ck.violation({"level": "api", "backend": hdr[1], "N": int(hdr[2]), "script": lines[1:], "detail": d, "source": "corpus/C06/" + nm})
             state["failed"] = True
     if not state["failed"]:
-        elem_level(ck, elem_h, state, 6 if big else 1, extra_scripts=corpus("elem"))
+        elem_level(ck, elem_h, state, 25 if big else 1, extra_scripts=corpus("elem"))
     if not state["failed"]:
-        conv_level(ck, conv_h, 4000 if big else 500, state)
+        conv_level(ck, conv_h, 20000 if big else 500, state)
     pool = None
     if not state["failed"]:
-        pool = Pool(ck.rng, conv_h, 600 if big else 260)
-        api_level(ck, api_h, pool, state, 4 if big else 1)
+        pool = Pool(ck.rng, conv_h, 1500 if big else 260)
+        api_level(ck, api_h, pool, state, 14 if big else 1)
 
     # something broke without a failing input so far: widen the search through the oracle (DESIGN.md 1.3)
     if (state["corr_broken"] or broken) and not state["failed"]:
